@@ -1,13 +1,257 @@
 package main
 
 import (
+	"flag"
 	"fmt"
-	"golang.org/x/tools/go/packages"
+	"os"
+	"sort"
+	"strings"
+	"time"
 )
 
+func envOr(k, d string) string {
+	if v := os.Getenv(k); v != "" {
+		return v
+	}
+	return d
+}
+
 func main() {
-	cfg := &packages.Config{Mode: packages.LoadAllSyntax, Dir: "/repo", BuildFlags: []string{"-tags=verif"}}
-	pkgs, err := packages.Load(cfg, "./...")
-	fmt.Println(len(pkgs), err)
-	for _, p := range pkgs { fmt.Println(p.PkgPath, len(p.Syntax), p.Errors) }
+	if len(os.Args) < 2 {
+		fmt.Fprintln(os.Stderr, "usage: govc verify|check|replay|selftest ...")
+		os.Exit(2)
+	}
+	switch os.Args[1] {
+	case "verify":
+		cmdVerify(os.Args[2:])
+	case "check":
+		cmdCheck(os.Args[2:])
+	case "replay":
+		cmdReplay(os.Args[2:])
+	case "selftest":
+		cmdSelftest(os.Args[2:])
+	case "bounded":
+		cmdBounded(os.Args[2:])
+	default:
+		fmt.Fprintln(os.Stderr, "unknown command", os.Args[1])
+		os.Exit(2)
+	}
+}
+
+type FuncReport struct {
+	Key      string
+	Err      error
+	Results  []*OblResult
+	Ex       *Exec
+	Time     float64
+}
+
+// lemmaObligations builds proof obligations for a lemma.
+func (w *World) lemmaObligations(lm *Lemma) (obls []*Obligation, err error) {
+	defer func() {
+		if r := recover(); r != nil {
+			if s, ok := r.(string); ok {
+				err = fmt.Errorf("lemma %s: %s", lm.Name, s)
+				return
+			}
+			panic(r)
+		}
+	}()
+	if lm.Axiom {
+		return nil, nil
+	}
+	ex := &Exec{w: w, arith: "exact", assumedCalls: map[string]bool{}}
+	names := map[string]*Val{}
+	for _, p := range lm.Params {
+		s, gt := w.resolveSpecType(lm.Pkg, p.Type)
+		c := ex.fresh("l_"+p.Name, s)
+		names[p.Name] = tv(c, gt)
+		ex.inputs = append(ex.inputs, ModelVar{Name: p.Name, Term: c, GoT: gt})
+	}
+	env := &SpecEnv{names: names, pkg: lm.Pkg, w: w}
+	mkObl := func(name string, guard, goal *Term, src string) {
+		o := &Obligation{Name: lm.Pkg + ".lemma." + lm.Name + "#" + name, Kind: "lemma", Func: lm.Pkg + ".lemma." + lm.Name, Guard: guard, Goal: goal, NDecl: len(ex.decls), Unfold: lm.Unfold, Props: lm.Props, Src: src, ex: ex, Inputs: ex.inputs}
+		if o.Unfold == 0 {
+			o.Unfold = 1
+		}
+		obls = append(obls, o)
+	}
+	var req, ens []*Term
+	for _, c := range lm.Requires {
+		req = append(req, w.trSpec(c.E, env).T)
+	}
+	for _, c := range lm.Ensures {
+		ens = append(ens, w.trSpec(c.E, env).T)
+	}
+	var uses []*Term
+	for _, u := range lm.Uses {
+		uses = append(uses, w.lemmaInstance(u, env))
+	}
+	guard := tAnd(append(append([]*Term{}, req...), uses...)...)
+	if lm.Induction == "" {
+		for i, e := range ens {
+			mkObl(fmt.Sprintf("proof.%s", clauseName(lm.Ensures[i], i)), guard, e, lm.Ensures[i].Src)
+		}
+		return obls, nil
+	}
+	k := names[lm.Induction]
+	if k == nil {
+		return nil, fmt.Errorf("lemma %s: induction variable %s is not a parameter", lm.Name, lm.Induction)
+	}
+	base := intLit(0)
+	if lm.Base != nil {
+		base = w.trSpec(lm.Base, env).T
+	}
+	// base case
+	for i, e := range ens {
+		mkObl(fmt.Sprintf("base.%s", clauseName(lm.Ensures[i], i)), tAnd(guard, mk("<=", SBool, k.T, base)), e, "base: "+lm.Ensures[i].Src)
+	}
+	// step: k > base, IH at k-1
+	km1 := mk("-", SInt, k.T, intLit(1))
+	ihNames := map[string]*Val{}
+	for n, v := range names {
+		ihNames[n] = v
+	}
+	ihNames[lm.Induction] = tv(km1, k.GoT)
+	ihEnv := &SpecEnv{names: ihNames, pkg: lm.Pkg, w: w}
+	var ihReq, ihEns []*Term
+	for _, c := range lm.Requires {
+		ihReq = append(ihReq, w.trSpec(c.E, ihEnv).T)
+	}
+	for _, c := range lm.Ensures {
+		ihEns = append(ihEns, w.trSpec(c.E, ihEnv).T)
+	}
+	ih := tImp(tAnd(ihReq...), tAnd(ihEns...))
+	for i, e := range ens {
+		mkObl(fmt.Sprintf("step.%s", clauseName(lm.Ensures[i], i)), tAnd(guard, mk(">", SBool, k.T, base), ih), e, "step: "+lm.Ensures[i].Src)
+	}
+	return obls, nil
+}
+
+func verifyKeys(w *World, keys []string, lemmas []string, smtDir string, timeoutMs, par int, verbose bool) []*FuncReport {
+	var reports []*FuncReport
+	var all []*Obligation
+	type span struct{ lo, hi int }
+	spans := map[int]span{}
+	for _, k := range keys {
+		fi := w.Funcs[k]
+		fc := w.CS.Funcs[k]
+		rep := &FuncReport{Key: k}
+		reports = append(reports, rep)
+		if fi == nil {
+			rep.Err = fmt.Errorf("CONTRACT-STALE: no function %s in the working tree", k)
+			continue
+		}
+		if fc.Trusted || fi.Decl == nil {
+			continue
+		}
+		ex, err := w.verifyFunc(fi, fc)
+		rep.Ex = ex
+		if err != nil {
+			rep.Err = err
+			continue
+		}
+		spans[len(reports)-1] = span{len(all), len(all) + len(ex.obls)}
+		all = append(all, ex.obls...)
+	}
+	for _, ln := range lemmas {
+		lm := w.CS.Lemmas[ln]
+		rep := &FuncReport{Key: lm.Pkg + ".lemma." + lm.Name}
+		reports = append(reports, rep)
+		obls, err := w.lemmaObligations(lm)
+		if err != nil {
+			rep.Err = err
+			continue
+		}
+		spans[len(reports)-1] = span{len(all), len(all) + len(obls)}
+		all = append(all, obls...)
+	}
+	t0 := time.Now()
+	results := solveAll(w, all, smtDir, timeoutMs, par)
+	_ = t0
+	for i, rep := range reports {
+		if sp, ok := spans[i]; ok {
+			rep.Results = results[sp.lo:sp.hi]
+		}
+	}
+	return reports
+}
+
+func cmdVerify(args []string) {
+	fs := flag.NewFlagSet("verify", flag.ExitOnError)
+	repo := fs.String("repo", "/repo", "repository")
+	funcs := fs.String("func", "", "comma separated function keys (default: all with contracts)")
+	timeout := fs.Int("timeout", 10000, "per-obligation timeout ms")
+	smtDir := fs.String("smt", envOr("GOVC_SMT", "/verif/tmp/smt"), "smt output dir")
+	verbose := fs.Bool("v", false, "verbose")
+	showOK := fs.Bool("all", false, "list discharged obligations too")
+	fs.Parse(args)
+	w, err := loadWorld(*repo)
+	if err != nil {
+		fmt.Fprintln(os.Stderr, "load:", err)
+		os.Exit(2)
+	}
+	var keys, lemmas []string
+	if *funcs == "" {
+		keys = w.CS.funcKeys()
+		lemmas = append(lemmas, w.CS.Order...)
+	} else {
+		for _, k := range strings.Split(*funcs, ",") {
+			if _, ok := w.CS.Lemmas[k]; ok {
+				lemmas = append(lemmas, k)
+			} else if _, ok := w.CS.Funcs[k]; ok {
+				keys = append(keys, k)
+			} else {
+				fmt.Fprintln(os.Stderr, "no contract for", k)
+				os.Exit(2)
+			}
+		}
+	}
+	reps := verifyKeys(w, keys, lemmas, *smtDir, *timeout, 16, *verbose)
+	bad := 0
+	for _, r := range reps {
+		if r.Err != nil {
+			fmt.Printf("%-50s ERROR %v\n", r.Key, r.Err)
+			bad++
+			continue
+		}
+		ok, n := 0, 0
+		var tt float64
+		for _, x := range r.Results {
+			n++
+			if x.OK {
+				ok++
+			}
+			tt += x.R.Time
+		}
+		fc := w.CS.Funcs[r.Key]
+		tag := ""
+		if fc != nil && fc.Trusted {
+			tag = " (trusted: " + fc.TrustWhy + ")"
+		}
+		fmt.Printf("%-50s %d/%d discharged  %.1fs%s\n", r.Key, ok, n, tt, tag)
+		sort.SliceStable(r.Results, func(i, j int) bool { return false })
+		for _, x := range r.Results {
+			if !x.OK || *showOK {
+				fmt.Printf("    %-8s %-7s %5.2fs %s  -- %s %s\n", x.R.Status, x.R.Solver, x.R.Time, x.O.Name, x.O.Src, x.Msg)
+				if !x.OK {
+					bad++
+					if x.R.Status == "sat" && *verbose {
+						fmt.Println("       model:", firstLines(strings.SplitN(x.R.Output, "\n", 2)[1], 40))
+					}
+					if x.R.Status == "error" {
+						fmt.Println("       ", firstLines(x.R.Output, 5))
+					}
+				}
+			}
+		}
+		if r.Ex != nil && *verbose {
+			for _, n := range r.Ex.notes {
+				fmt.Println("    note:", n)
+			}
+		}
+	}
+	if bad > 0 {
+		os.Exit(1)
+	}
 }
